@@ -1,6 +1,9 @@
 theories/Base/Sx.vo theories/Base/Sx.glob theories/Base/Sx.v.beautified theories/Base/Sx.required_vo: theories/Base/Sx.v 
 theories/Base/Sx.vio: theories/Base/Sx.v 
 theories/Base/Sx.vos theories/Base/Sx.vok theories/Base/Sx.required_vos: theories/Base/Sx.v 
+theories/Gen/C01ArgTables.vo theories/Gen/C01ArgTables.glob theories/Gen/C01ArgTables.v.beautified theories/Gen/C01ArgTables.required_vo: theories/Gen/C01ArgTables.v theories/Base/Sx.vo theories/Model/ArgTypes.vo
+theories/Gen/C01ArgTables.vio: theories/Gen/C01ArgTables.v theories/Base/Sx.vio theories/Model/ArgTypes.vio
+theories/Gen/C01ArgTables.vos theories/Gen/C01ArgTables.vok theories/Gen/C01ArgTables.required_vos: theories/Gen/C01ArgTables.v theories/Base/Sx.vos theories/Model/ArgTypes.vos
 theories/Gen/C02HashSpec.vo theories/Gen/C02HashSpec.glob theories/Gen/C02HashSpec.v.beautified theories/Gen/C02HashSpec.required_vo: theories/Gen/C02HashSpec.v theories/Base/Sx.vo theories/Model/KeyEnc.vo
 theories/Gen/C02HashSpec.vio: theories/Gen/C02HashSpec.v theories/Base/Sx.vio theories/Model/KeyEnc.vio
 theories/Gen/C02HashSpec.vos theories/Gen/C02HashSpec.vok theories/Gen/C02HashSpec.required_vos: theories/Gen/C02HashSpec.v theories/Base/Sx.vos theories/Model/KeyEnc.vos
@@ -22,6 +25,9 @@ theories/Gen/C18Consts.vos theories/Gen/C18Consts.vok theories/Gen/C18Consts.req
 theories/Model/ArgTypes.vo theories/Model/ArgTypes.glob theories/Model/ArgTypes.v.beautified theories/Model/ArgTypes.required_vo: theories/Model/ArgTypes.v 
 theories/Model/ArgTypes.vio: theories/Model/ArgTypes.v 
 theories/Model/ArgTypes.vos theories/Model/ArgTypes.vok theories/Model/ArgTypes.required_vos: theories/Model/ArgTypes.v 
+theories/Model/Args.vo theories/Model/Args.glob theories/Model/Args.v.beautified theories/Model/Args.required_vo: theories/Model/Args.v theories/Base/Sx.vo theories/Model/ArgTypes.vo
+theories/Model/Args.vio: theories/Model/Args.v theories/Base/Sx.vio theories/Model/ArgTypes.vio
+theories/Model/Args.vos theories/Model/Args.vok theories/Model/Args.required_vos: theories/Model/Args.v theories/Base/Sx.vos theories/Model/ArgTypes.vos
 theories/Model/Client.vo theories/Model/Client.glob theories/Model/Client.v.beautified theories/Model/Client.required_vo: theories/Model/Client.v 
 theories/Model/Client.vio: theories/Model/Client.v 
 theories/Model/Client.vos theories/Model/Client.vok theories/Model/Client.required_vos: theories/Model/Client.v 
@@ -34,6 +40,9 @@ theories/Model/Crc32.vos theories/Model/Crc32.vok theories/Model/Crc32.required_
 theories/Model/DiskCache.vo theories/Model/DiskCache.glob theories/Model/DiskCache.v.beautified theories/Model/DiskCache.required_vo: theories/Model/DiskCache.v theories/Base/Sx.vo theories/Model/Lru.vo
 theories/Model/DiskCache.vio: theories/Model/DiskCache.v theories/Base/Sx.vio theories/Model/Lru.vio
 theories/Model/DiskCache.vos theories/Model/DiskCache.vok theories/Model/DiskCache.required_vos: theories/Model/DiskCache.v theories/Base/Sx.vos theories/Model/Lru.vos
+theories/Model/DiskConfig.vo theories/Model/DiskConfig.glob theories/Model/DiskConfig.v.beautified theories/Model/DiskConfig.required_vo: theories/Model/DiskConfig.v theories/Base/Sx.vo
+theories/Model/DiskConfig.vio: theories/Model/DiskConfig.v theories/Base/Sx.vio
+theories/Model/DiskConfig.vos theories/Model/DiskConfig.vok theories/Model/DiskConfig.required_vos: theories/Model/DiskConfig.v theories/Base/Sx.vos
 theories/Model/DistArgs.vo theories/Model/DistArgs.glob theories/Model/DistArgs.v.beautified theories/Model/DistArgs.required_vo: theories/Model/DistArgs.v theories/Base/Sx.vo
 theories/Model/DistArgs.vio: theories/Model/DistArgs.v theories/Base/Sx.vio
 theories/Model/DistArgs.vos theories/Model/DistArgs.vok theories/Model/DistArgs.required_vos: theories/Model/DistArgs.v theories/Base/Sx.vos
@@ -67,6 +76,9 @@ theories/Model/PpCache.vos theories/Model/PpCache.vok theories/Model/PpCache.req
 theories/Model/RoCache.vo theories/Model/RoCache.glob theories/Model/RoCache.v.beautified theories/Model/RoCache.required_vo: theories/Model/RoCache.v theories/Base/Sx.vo theories/Model/Lru.vo
 theories/Model/RoCache.vio: theories/Model/RoCache.v theories/Base/Sx.vio theories/Model/Lru.vio
 theories/Model/RoCache.vos theories/Model/RoCache.vok theories/Model/RoCache.required_vos: theories/Model/RoCache.v theories/Base/Sx.vos theories/Model/Lru.vos
+theories/Model/RustPath.vo theories/Model/RustPath.glob theories/Model/RustPath.v.beautified theories/Model/RustPath.required_vo: theories/Model/RustPath.v theories/Base/Sx.vo
+theories/Model/RustPath.vio: theories/Model/RustPath.v theories/Base/Sx.vio
+theories/Model/RustPath.vos theories/Model/RustPath.vok theories/Model/RustPath.required_vos: theories/Model/RustPath.v theories/Base/Sx.vos
 theories/Model/Scheduler.vo theories/Model/Scheduler.glob theories/Model/Scheduler.v.beautified theories/Model/Scheduler.required_vo: theories/Model/Scheduler.v theories/Base/Sx.vo theories/Gen/C18Consts.vo
 theories/Model/Scheduler.vio: theories/Model/Scheduler.v theories/Base/Sx.vio theories/Gen/C18Consts.vio
 theories/Model/Scheduler.vos theories/Model/Scheduler.vok theories/Model/Scheduler.required_vos: theories/Model/Scheduler.v theories/Base/Sx.vos theories/Gen/C18Consts.vos
@@ -85,6 +97,12 @@ theories/Model/TimeMacro.vos theories/Model/TimeMacro.vok theories/Model/TimeMac
 theories/Model/Zip.vo theories/Model/Zip.glob theories/Model/Zip.v.beautified theories/Model/Zip.required_vo: theories/Model/Zip.v theories/Model/Crc32.vo
 theories/Model/Zip.vio: theories/Model/Zip.v theories/Model/Crc32.vio
 theories/Model/Zip.vos theories/Model/Zip.vok theories/Model/Zip.required_vos: theories/Model/Zip.v theories/Model/Crc32.vos
+theories/Proofs/Client.vo theories/Proofs/Client.glob theories/Proofs/Client.v.beautified theories/Proofs/Client.required_vo: theories/Proofs/Client.v theories/Model/Client.vo
+theories/Proofs/Client.vio: theories/Proofs/Client.v theories/Model/Client.vio
+theories/Proofs/Client.vos theories/Proofs/Client.vok theories/Proofs/Client.required_vos: theories/Proofs/Client.v theories/Model/Client.vos
+theories/Proofs/CompilerCache.vo theories/Proofs/CompilerCache.glob theories/Proofs/CompilerCache.v.beautified theories/Proofs/CompilerCache.required_vo: theories/Proofs/CompilerCache.v theories/Model/CompilerCache.vo
+theories/Proofs/CompilerCache.vio: theories/Proofs/CompilerCache.v theories/Model/CompilerCache.vio
+theories/Proofs/CompilerCache.vos theories/Proofs/CompilerCache.vok theories/Proofs/CompilerCache.required_vos: theories/Proofs/CompilerCache.v theories/Model/CompilerCache.vos
 theories/Proofs/Lru.vo theories/Proofs/Lru.glob theories/Proofs/Lru.v.beautified theories/Proofs/Lru.required_vo: theories/Proofs/Lru.v theories/Base/Sx.vo theories/Model/Lru.vo
 theories/Proofs/Lru.vio: theories/Proofs/Lru.v theories/Base/Sx.vio theories/Model/Lru.vio
 theories/Proofs/Lru.vos theories/Proofs/Lru.vok theories/Proofs/Lru.required_vos: theories/Proofs/Lru.v theories/Base/Sx.vos theories/Model/Lru.vos
@@ -97,12 +115,24 @@ theories/Proofs/TcCache.vos theories/Proofs/TcCache.vok theories/Proofs/TcCache.
 theories/Properties/C02.vo theories/Properties/C02.glob theories/Properties/C02.v.beautified theories/Properties/C02.required_vo: theories/Properties/C02.v theories/Model/KeyEnc.vo theories/Gen/C02HashSpec.vo
 theories/Properties/C02.vio: theories/Properties/C02.v theories/Model/KeyEnc.vio theories/Gen/C02HashSpec.vio
 theories/Properties/C02.vos theories/Properties/C02.vok theories/Properties/C02.required_vos: theories/Properties/C02.v theories/Model/KeyEnc.vos theories/Gen/C02HashSpec.vos
+theories/Properties/C04.vo theories/Properties/C04.glob theories/Properties/C04.v.beautified theories/Properties/C04.required_vo: theories/Properties/C04.v 
+theories/Properties/C04.vio: theories/Properties/C04.v 
+theories/Properties/C04.vos theories/Properties/C04.vok theories/Properties/C04.required_vos: theories/Properties/C04.v 
 theories/Properties/C06.vo theories/Properties/C06.glob theories/Properties/C06.v.beautified theories/Properties/C06.required_vo: theories/Properties/C06.v theories/Model/DiskCache.vo
 theories/Properties/C06.vio: theories/Properties/C06.v theories/Model/DiskCache.vio
 theories/Properties/C06.vos theories/Properties/C06.vok theories/Properties/C06.required_vos: theories/Properties/C06.v theories/Model/DiskCache.vos
 theories/Properties/C07.vo theories/Properties/C07.glob theories/Properties/C07.v.beautified theories/Properties/C07.required_vo: theories/Properties/C07.v 
 theories/Properties/C07.vio: theories/Properties/C07.v 
 theories/Properties/C07.vos theories/Properties/C07.vok theories/Properties/C07.required_vos: theories/Properties/C07.v 
+theories/Properties/C11.vo theories/Properties/C11.glob theories/Properties/C11.v.beautified theories/Properties/C11.required_vo: theories/Properties/C11.v theories/Model/Client.vo
+theories/Properties/C11.vio: theories/Properties/C11.v theories/Model/Client.vio
+theories/Properties/C11.vos theories/Properties/C11.vok theories/Properties/C11.required_vos: theories/Properties/C11.v theories/Model/Client.vos
+theories/Properties/C12.vo theories/Properties/C12.glob theories/Properties/C12.v.beautified theories/Properties/C12.required_vo: theories/Properties/C12.v 
+theories/Properties/C12.vio: theories/Properties/C12.v 
+theories/Properties/C12.vos theories/Properties/C12.vok theories/Properties/C12.required_vos: theories/Properties/C12.v 
+theories/Properties/C16.vo theories/Properties/C16.glob theories/Properties/C16.v.beautified theories/Properties/C16.required_vo: theories/Properties/C16.v 
+theories/Properties/C16.vio: theories/Properties/C16.v 
+theories/Properties/C16.vos theories/Properties/C16.vok theories/Properties/C16.required_vos: theories/Properties/C16.v 
 theories/Properties/C17.vo theories/Properties/C17.glob theories/Properties/C17.v.beautified theories/Properties/C17.required_vo: theories/Properties/C17.v theories/Base/Sx.vo theories/Model/Lru.vo theories/Model/TcCache.vo
 theories/Properties/C17.vio: theories/Properties/C17.v theories/Base/Sx.vio theories/Model/Lru.vio theories/Model/TcCache.vio
 theories/Properties/C17.vos theories/Properties/C17.vok theories/Properties/C17.required_vos: theories/Properties/C17.v theories/Base/Sx.vos theories/Model/Lru.vos theories/Model/TcCache.vos
@@ -112,6 +142,9 @@ theories/Properties/C18.vos theories/Properties/C18.vok theories/Properties/C18.
 theories/Run/C02.vo theories/Run/C02.glob theories/Run/C02.v.beautified theories/Run/C02.required_vo: theories/Run/C02.v theories/Base/Sx.vo theories/Model/KeyEnc.vo theories/Gen/C02HashSpec.vo
 theories/Run/C02.vio: theories/Run/C02.v theories/Base/Sx.vio theories/Model/KeyEnc.vio theories/Gen/C02HashSpec.vio
 theories/Run/C02.vos theories/Run/C02.vok theories/Run/C02.required_vos: theories/Run/C02.v theories/Base/Sx.vos theories/Model/KeyEnc.vos theories/Gen/C02HashSpec.vos
+theories/Run/C03.vo theories/Run/C03.glob theories/Run/C03.v.beautified theories/Run/C03.required_vo: theories/Run/C03.v theories/Base/Sx.vo theories/Model/Lru.vo theories/Model/HitModel.vo
+theories/Run/C03.vio: theories/Run/C03.v theories/Base/Sx.vio theories/Model/Lru.vio theories/Model/HitModel.vio
+theories/Run/C03.vos theories/Run/C03.vok theories/Run/C03.required_vos: theories/Run/C03.v theories/Base/Sx.vos theories/Model/Lru.vos theories/Model/HitModel.vos
 theories/Run/C04.vo theories/Run/C04.glob theories/Run/C04.v.beautified theories/Run/C04.required_vo: theories/Run/C04.v theories/Base/Sx.vo theories/Gen/C04Consts.vo theories/Model/TimeMacro.vo theories/Model/PpCache.vo
 theories/Run/C04.vio: theories/Run/C04.v theories/Base/Sx.vio theories/Gen/C04Consts.vio theories/Model/TimeMacro.vio theories/Model/PpCache.vio
 theories/Run/C04.vos theories/Run/C04.vok theories/Run/C04.required_vos: theories/Run/C04.v theories/Base/Sx.vos theories/Gen/C04Consts.vos theories/Model/TimeMacro.vos theories/Model/PpCache.vos
@@ -124,12 +157,21 @@ theories/Run/C07.vos theories/Run/C07.vok theories/Run/C07.required_vos: theorie
 theories/Run/C08.vo theories/Run/C08.glob theories/Run/C08.v.beautified theories/Run/C08.required_vo: theories/Run/C08.v theories/Base/Sx.vo theories/Model/Crc32.vo theories/Model/Zip.vo
 theories/Run/C08.vio: theories/Run/C08.v theories/Base/Sx.vio theories/Model/Crc32.vio theories/Model/Zip.vio
 theories/Run/C08.vos theories/Run/C08.vok theories/Run/C08.required_vos: theories/Run/C08.v theories/Base/Sx.vos theories/Model/Crc32.vos theories/Model/Zip.vos
+theories/Run/C10.vo theories/Run/C10.glob theories/Run/C10.v.beautified theories/Run/C10.required_vo: theories/Run/C10.v theories/Base/Sx.vo theories/Model/FsModel.vo theories/Model/Extract.vo
+theories/Run/C10.vio: theories/Run/C10.v theories/Base/Sx.vio theories/Model/FsModel.vio theories/Model/Extract.vio
+theories/Run/C10.vos theories/Run/C10.vok theories/Run/C10.required_vos: theories/Run/C10.v theories/Base/Sx.vos theories/Model/FsModel.vos theories/Model/Extract.vos
 theories/Run/C11.vo theories/Run/C11.glob theories/Run/C11.v.beautified theories/Run/C11.required_vo: theories/Run/C11.v theories/Base/Sx.vo theories/Model/Client.vo
 theories/Run/C11.vio: theories/Run/C11.v theories/Base/Sx.vio theories/Model/Client.vio
 theories/Run/C11.vos theories/Run/C11.vok theories/Run/C11.required_vos: theories/Run/C11.v theories/Base/Sx.vos theories/Model/Client.vos
 theories/Run/C12.vo theories/Run/C12.glob theories/Run/C12.v.beautified theories/Run/C12.required_vo: theories/Run/C12.v theories/Base/Sx.vo theories/Model/CompilerCache.vo
 theories/Run/C12.vio: theories/Run/C12.v theories/Base/Sx.vio theories/Model/CompilerCache.vio
 theories/Run/C12.vos theories/Run/C12.vok theories/Run/C12.required_vos: theories/Run/C12.v theories/Base/Sx.vos theories/Model/CompilerCache.vos
+theories/Run/C13.vo theories/Run/C13.glob theories/Run/C13.v.beautified theories/Run/C13.required_vo: theories/Run/C13.v theories/Base/Sx.vo theories/Model/DistStatus.vo theories/Model/DistFallback.vo theories/Model/DistArgs.vo
+theories/Run/C13.vio: theories/Run/C13.v theories/Base/Sx.vio theories/Model/DistStatus.vio theories/Model/DistFallback.vio theories/Model/DistArgs.vio
+theories/Run/C13.vos theories/Run/C13.vok theories/Run/C13.required_vos: theories/Run/C13.v theories/Base/Sx.vos theories/Model/DistStatus.vos theories/Model/DistFallback.vos theories/Model/DistArgs.vos
+theories/Run/C15.vo theories/Run/C15.glob theories/Run/C15.v.beautified theories/Run/C15.required_vo: theories/Run/C15.v theories/Base/Sx.vo theories/Model/Lru.vo theories/Model/RoCache.vo theories/Model/DiskConfig.vo
+theories/Run/C15.vio: theories/Run/C15.v theories/Base/Sx.vio theories/Model/Lru.vio theories/Model/RoCache.vio theories/Model/DiskConfig.vio
+theories/Run/C15.vos theories/Run/C15.vok theories/Run/C15.required_vos: theories/Run/C15.v theories/Base/Sx.vos theories/Model/Lru.vos theories/Model/RoCache.vos theories/Model/DiskConfig.vos
 theories/Run/C16.vo theories/Run/C16.glob theories/Run/C16.v.beautified theories/Run/C16.required_vo: theories/Run/C16.v theories/Base/Sx.vo theories/Model/Jobserver.vo
 theories/Run/C16.vio: theories/Run/C16.v theories/Base/Sx.vio theories/Model/Jobserver.vio
 theories/Run/C16.vos theories/Run/C16.vok theories/Run/C16.required_vos: theories/Run/C16.v theories/Base/Sx.vos theories/Model/Jobserver.vos
